@@ -25,6 +25,8 @@ def check(model, R, tier):
     R.rule('C13.MODE-SOURCE', 'Dropout and BatchNorm read only self.training for the mode', floor=2)
     check_dropout(model, R)
     check_bn(model, R)
+    from sa.props.c12 import check_mode
+    check_mode(model, R, 'C13')      # train()/eval() reach every descendant layer: necessary for 'any interleaving of mode switches'
     return dict(
         explanation='Decides which path is taken under which mode predicate and what is written when: Dropout eval path is the identity with no draw; the training path draws once, compares with p in the right orientation, '
                     'scales by 1/(1-p) and multiplies through the catalogue op (so backward uses the same mask by C01); BatchNorm\'s composed predicates (layer, functional wrapper, kernel) select running statistics iff eval and '
